@@ -20,6 +20,7 @@ import (
 	"strings"
 
 	"github.com/corazawaf/coraza/v3/internal/verif/runner"
+	"github.com/corazawaf/coraza/v3/internal/verif/vrt"
 )
 
 func init() {
@@ -67,7 +68,9 @@ type sink interface {
 func run(c *runner.Ctx) {
 	th := c.Thorough()
 	idx := 0
-	// ---- part A
+	// ---- part A (pooled objects are always reused, so that a result living in a
+	// pooled scratch buffer is overwritten by the next call)
+	vrt.PoolMode = 1
 	for _, name := range names() {
 		f := mustGet(name)
 		for _, sp := range spacesFor(name, th) {
@@ -83,7 +86,8 @@ func run(c *runner.Ctx) {
 			}
 		}
 	}
-	// ---- part B
+	// ---- part B (fresh transaction objects)
+	vrt.PoolMode = 0
 	runRules(c, &idx)
 	c.Extra("transformations", len(names()))
 }
@@ -98,6 +102,10 @@ func replay(raw json.RawMessage) (bool, string) {
 		return false, err.Error()
 	}
 	col := &collector{}
+	vrt.PoolMode = 0
+	if s.Kind != "rule" {
+		vrt.PoolMode = 1
+	}
 	switch s.Kind {
 	case "direct":
 		k := newChecker(s.T, mustGet(s.T), col)
